@@ -5,6 +5,7 @@ import (
 	"go/ast"
 	"go/token"
 	"go/types"
+	"sort"
 	"strings"
 
 	"golang.org/x/tools/go/ssa"
@@ -14,7 +15,7 @@ func init() {
 	register(&Prop{
 		ID:         "C18",
 		Title:      "Table lifecycle and metadata stay coherent",
-		Decided:    "(R1) CreateTable: the existence test on tables[name] dominates the insertion and its hit edge returns a resource-in-use error; the insertion lies on the success edges of CreatePrimaryIndex, AddGlobalIndexes and AddLocalIndexes (no half-built table is published), stores the table returned by core.NewTable under the request's table name; (R2) Client.tables is read only by comma-ok lookups whose miss edge returns a resource-not-found error (or by iteration), and written only by the constructor, CreateTable and DeleteTable; (R3) NewTable, newIndex and NewClient initialise every map/slice field with a fresh container, so a re-created table shares nothing with its predecessor; (R4) Description reports ItemCount ← len(SortedKeys), the key schema of the table and one entry per index with an exhaustive switch over the index kinds, and both clients carry TableName, ItemCount, KeySchema and both index lists into the SDK description; (R5) DeleteTable deletes exactly the looked-up name after a successful lookup; (R6) no instruction outside package initialisation stores through a package-level variable of the six packages, and no address into a package-level singleton object escapes – separate clients share no mutable state; (R7) every core call in a data method operates on the table returned by the lookup of the request's own TableName; (R8) hygiene that keeps the call graph sound: no unsafe, cgo, go:linkname, reflective call or build-tagged file; (R11) tables, indexes and the catalogue have no state beyond the confirmed fields: cached metadata added later must be rewritten by every writer of what it describes; (R12) no engine-internal error class escapes an exported v2 entry point (= C17.R9); (R13) a new index is back-filled through its own mutator (= C03.R6); (R14) the reported item count is len(SortedKeys), kept equal to the key set of Data by every mutator on every path (= C01.R2).",
+		Decided:    "(R1) CreateTable: the existence test on tables[name] dominates the insertion and its hit edge returns a resource-in-use error; the insertion lies on the success edges of CreatePrimaryIndex, AddGlobalIndexes and AddLocalIndexes (no half-built table is published), stores the table returned by core.NewTable under the request's table name; (R2) Client.tables is read only by comma-ok lookups whose miss edge returns a resource-not-found error (or by iteration), and written only by the constructor, CreateTable and DeleteTable; (R3) NewTable, newIndex and NewClient initialise every map/slice field with a fresh container, so a re-created table shares nothing with its predecessor; (R4) Description reports ItemCount ← len(SortedKeys), the key schema of the table and one entry per index with an exhaustive switch over the index kinds, and both clients carry TableName, ItemCount, KeySchema and both index lists into the SDK description; (R5) DeleteTable deletes exactly the looked-up name after a successful lookup; (R6) no instruction outside package initialisation stores through a package-level variable of the six packages, and no address into a package-level singleton object escapes – separate clients share no mutable state; (R7) every core call in a data method operates on the table returned by the lookup of the request's own TableName; (R8) hygiene that keeps the call graph sound: no unsafe, cgo, go:linkname, reflective call or build-tagged file; (R11) tables, indexes and the catalogue have no state beyond the confirmed fields: cached metadata added later must be rewritten by every writer of what it describes; (R12) no engine-internal error class escapes an exported v2 entry point (= C17.R9); (R13) a new index is back-filled through its own mutator (= C03.R6); (R14) the reported item count is len(SortedKeys), kept equal to the key set of Data by every mutator on every path (= C01.R2); (R15) the engine function that installs one new index reports success only after the store into Table.Indexes: a shortcut for an index name that is already there (keep the old one) leaves the description and the queries on the old key schema.",
 		NotDecided: "sequencing semantics across arbitrary histories beyond the induction over per-method invariants; billing-mode/throughput validation values.",
 		Rules: []RuleDef{
 			{ID: "R1", Desc: "CreateTable: exists-test dominates insertion; only fully built tables are published (T-DOM)", Run: c18R1},
@@ -37,6 +38,7 @@ func init() {
 			{ID: "R12", Desc: "operating on a table that does not exist fails with the SDK's resource-not-found error in every exported v2 entry point, helpers like ClearTable included: no engine-internal error escapes unmapped (= C17.R9)", Run: aliasRule("R12", c17R9, nil)},
 			{ID: "R13", Desc: "an index created on a non-empty table is filled through the index's own mutator (= C03.R6): items without the index key stay out, the per-index item count is the number of items that have it", Run: aliasRule("R13", c03R6, nil)},
 			{ID: "R14", Desc: "DescribeTable reports the current number of items: the count is the length of SortedKeys, which every mutator keeps equal to the key set of Data on every path (= C01.R2) – a delete of an absent key that drops a neighbour's entry makes the count drift", Run: aliasRule("R14", c01R2, nil)},
+			{ID: "R15", Desc: "creating an index that reports success has installed it: in the engine function that stores one new index into Table.Indexes every success return is reached only through that store (must-pass-through) – otherwise DescribeTable keeps reporting the old set of indexes and key schemas", Run: c18R15},
 		},
 	})
 }
@@ -832,5 +834,64 @@ func c18R9(e *Engine) {
 	}
 	if n == 0 {
 		e.pass("R9", "no-escaping-loop-variable", "-", "no loop-carried variable has its address retained from inside its loop (%d functions scanned)", len(e.all))
+	}
+}
+
+// c18R15: "DescribeTable always reports the current set of indexes with their key schemas" – the index a successful
+// creation describes is the one that is installed. Judged for the functions that store ONE index (the store is not in a
+// loop); a function that installs a list of indexes stores per element and may legitimately store nothing.
+func c18R15(e *Engine) {
+	cs := e.coreModel()
+	tbl := e.namedType("core", "Table")
+	if !e.anchor("R15", "core.Table.Indexes", cs == nil || tbl == nil) {
+		return
+	}
+	var idxField *types.Var
+	if st, ok := tbl.Underlying().(*types.Struct); ok {
+		for i := 0; i < st.NumFields(); i++ {
+			if st.Field(i).Name() == "Indexes" {
+				idxField = st.Field(i)
+			}
+		}
+	}
+	if !e.anchor("R15", "core.Table.Indexes (field)", idxField == nil) {
+		return
+	}
+	direct := map[ssa.Instruction]bool{}
+	hosts := map[*ssa.Function][]ssa.Instruction{}
+	for _, a := range e.fieldAccesses(idxField, e.all) {
+		if a.Write && a.Kind == "map-update" && !a.Fresh && e.fnRole(a.Fn) == "core" {
+			direct[a.Instr] = true
+			hosts[a.Fn] = append(hosts[a.Fn], a.Instr)
+		}
+	}
+	gap := e.successGap(direct)
+	n := 0
+	var fns []*ssa.Function
+	for g := range hosts {
+		fns = append(fns, g)
+	}
+	sort.Slice(fns, func(i, j int) bool { return e.fname(fns[i]) < e.fname(fns[j]) })
+	for _, g := range fns {
+		construct := e.fname(g) + ":success-implies-installed"
+		inLoop := false
+		for _, in := range hosts[g] {
+			if mayFollow(in, in) {
+				inLoop = true
+			}
+		}
+		n++
+		if inLoop || errResultIndex(g) < 0 {
+			e.ob("R15", construct, e.pos(g.Pos()), Pass, false, "installs a list of indexes (store per element) or reports no error: not judged")
+			continue
+		}
+		if bad := gap(g); bad != "" && bad != "?" {
+			e.fail("R15", construct, e.pos(g.Pos()), "the success return in %s is reachable without the store into Table.Indexes: the creation reports success while the table keeps the index (and key schema) it had – or none", bad)
+		} else {
+			e.pass("R15", construct, e.pos(g.Pos()), "every success return is reached only through the store into Table.Indexes")
+		}
+	}
+	if n < 2 {
+		e.fail("R15", "count:R15", "-", "only %d engine functions that install indexes found", n)
 	}
 }
